@@ -832,12 +832,26 @@ pub fn run_once(rc: &RunCfg, replay: Option<Vec<u8>>) -> RunResult {
         let mut seen = std::collections::HashSet::new();
         c.hang_list.iter().any(|n| !seen.insert(n.0)) || c.hang_list.len() >= 64
     };
-    let stuck_shape = if cyclic {
+    // root cause visible in the trace: a node whose unlink CAS went to a predecessor that was not in
+    // the list stays linked (marked); it is then either polled for ever or, once its memory is
+    // released again, linked a second time (a cycle). Only counts when that very node is what the
+    // list is stuck on.
+    let dup_nodes: Vec<usize> = {
+        let mut seen = std::collections::HashSet::new();
+        c.hang_list.iter().filter(|n| !seen.insert(n.0)).map(|n| c.base + n.0 as usize).collect()
+    };
+    let stale_cause = c.stale_unlinks.iter().any(|(_, _, node)| stuck_nodes.contains(node) || dup_nodes.contains(node));
+    if !c.stale_unlinks.is_empty() {
+        shapes.push(format!("stale-unlinks:{:?}", c.stale_unlinks.iter().map(|(t, p, n)| (*t, p - c.base, n - c.base)).collect::<Vec<_>>()));
+    }
+    let stuck_shape = if stale_cause {
+        "unlinked-from-stale-predecessor"
+    } else if cyclic {
         "free-list-cycle"
     } else if stuck_states.iter().any(|v| *v == "unlink-failed" || *v == "marked") {
         "mark-not-undone-after-failed-unlink"
     } else if stuck_states.iter().any(|v| *v == "unlink-succeeded") {
-        "unlinked-from-stale-predecessor"
+        "unlink-succeeded-but-still-linked"
     } else if stuck_states.is_empty() && polled_unlinked {
         "polling-a-node-that-is-no-longer-linked"
     } else if stuck_states.is_empty() {
@@ -1110,7 +1124,7 @@ fn report_run(out: &mut Out, prop: &str, rc: &RunCfg, r: &RunResult, extra_args:
         d.set("free_list_at_hang", r.freelist_after.clone());
         let first = r.stuck_shape.split(' ').next().unwrap_or("").to_string();
         let shape = match first.as_str() {
-            "mark-not-undone-after-failed-unlink" | "unlinked-from-stale-predecessor" => format!("removed-node-linked:{}", first),
+            "mark-not-undone-after-failed-unlink" | "unlinked-from-stale-predecessor" | "unlink-succeeded-but-still-linked" => format!("removed-node-linked:{}", first),
             "polling-a-node-that-is-no-longer-linked" | "free-list-cycle" => first.clone(),
             _ => "other".to_string(),
         };
